@@ -1353,6 +1353,7 @@ _vbi_cache_foreach_page		(vbi_cache *		ca,
 	cache_page *cp;
 	struct ttx_page_stat *ps;
 	vbi_bool wrapped;
+	unsigned int n_missed;
 
 	assert (NULL != ca);
 	assert (NULL != cn);
@@ -1360,6 +1361,8 @@ _vbi_cache_foreach_page		(vbi_cache *		ca,
 
 	if (0 == cn->n_cached_pages)
 		return 0;
+
+	n_missed = 0;
 
 	if ((cp = _vbi_cache_get_page (ca, cn, pgno, subno, -1))) {
 		subno = cp->subno;
@@ -1383,6 +1386,8 @@ _vbi_cache_foreach_page		(vbi_cache *		ca,
 
 			if (0 != r)
 				return r;
+
+			n_missed = 0;
 		}
 
 		subno += dir;
@@ -1390,6 +1395,13 @@ _vbi_cache_foreach_page		(vbi_cache *		ca,
 		while (0 == ps->n_subpages
 		       || subno < ps->subno_min
 		       || subno > ps->subno_max) {
+			/* The statistics also count pages which were
+			   replaced while referenced and are no longer
+			   reachable. Give up after two rounds through
+			   all page numbers without finding a page. */
+			if (++n_missed > 2 * 0x800)
+				return 0;
+
 			if (dir < 0) {
 				--pgno;
 				--ps;
